@@ -26,13 +26,12 @@ pub fn run<P: Pat>(args: &Args) -> Value {
     let root = args.get("root").expect("--root");
     let pairs = vlib::trace::read_ndjson(&args.get("pairs").expect("--pairs"));
     let mut out = TraceWriter::create(&args.get("out").expect("--out"));
-    let config = util::make_config(&format!("{root}/m{}", P::NAME), &format!("c6m{}_", P::NAME), args.num("timeout", 20_000));
+    let config = util::make_config(&format!("{root}/m{}", P::NAME), &format!("c6{}m{}_", args.get_or("tag", ""), P::NAME), args.num("timeout", 20_000));
     let name: ServiceName = "c06/matrix".try_into().unwrap();
     let mut n = 0u64;
     {
         let a: Actor<P> = Actor::new(&config, 0);
         let b: Actor<P> = Actor::new(&config, 1);
-        let c3: Actor<P> = Actor::new(&config, 2);
         for p in &pairs {
             let (c, o) = (&p["c"], &p["o"]);
             n += 1;
@@ -53,7 +52,7 @@ pub fn run<P: Pat>(args: &Args) -> Value {
                     }
                     Err(e) => rec["r"] = json!(e),
                 }
-                let again = P::open(&c3.node, &name, &type_only(c));
+                let again = P::open(&b.node, &name, &type_only(c));
                 match &again {
                     Ok(h) => {
                         let s = P::seen(h);
